@@ -144,10 +144,14 @@ class SidecarValidator:
         found_column_references = {}
         for column_data in sidecar:
             column_name = column_data.column_name
+            # Screen every string, also of columns whose type could not be determined (e.g. a string without '#').
+            column_data = column_data._get_unvalidated_data()
             hed_strings = column_data.get_hed_strings()
             error_handler.push_error_context(ErrorContext.SIDECAR_COLUMN_NAME, column_name)
             matches = []
             for key_name, hed_string in hed_strings.items():
+                if not isinstance(hed_string, str):
+                    continue  # reported by validate_structure
                 new_issues = []
                 if len(hed_strings) > 1:
                     error_handler.push_error_context(ErrorContext.SIDECAR_KEY_NAME, key_name)
